@@ -157,6 +157,80 @@ def check_C01(run):
     return generic(run, fams)
 
 
+def check_C03(run):
+    q = run.quick
+    trace = os.path.join(run.work, "trace.ndjson")
+    # 1. model-generated histories (rotations, revocations, duplicate races): discipline clauses on every AEAD/KMS/Store event
+    fams = [("hist", dict(over=dict(MaxT=5 if q else 6, MaxKids=5 if q else 6, MaxRecs=1, MaxRevokes=1, EmitEvery=15 if q else 40),
+                          ik=("session", "shared") if q else ("session", "shared", "none"), sk=(True,) if q else (True, False))),
+            ("race", dict(over=dict(MaxT=1, MaxKids=4, MaxRecs=1, MaxRevokes=0, EmitEvery=10 if q else 5), procs=("p1", "p2"), ik=("session",), sk=(True,)))]
+    for label, kw in fams:
+        res, viols = family(run, label, **kw)
+        report(run, viols, trace, CLAUSES["C03"])
+    # 2. long real histories: thousands of encrypts per key, several partitions, rotations; taint search of every artefact
+    cfg = {"runs": 3 if q else 12, "partitions": 8, "ops": 1500 if q else 5000, "E": 40, "R": 10, "P": 1, "tickEvery": 25, "tick": 3}
+    lr = run.drv(["env-long", "-seed", str(run.seed), "-trace", trace, "-cfg", json.dumps(cfg)], timeout=1800)
+    run.absorb(lr)
+    viols = monitor(run, trace)
+    report(run, viols, trace, CLAUSES["C03"])
+    run.notes.append("long histories: %d runs x %d operations, %d events" % (cfg["runs"], cfg["ops"], lr.get("events", 0)))
+    return _finish(run, "families: hist, race + %d seeded long histories of %d operations over 8 partitions (AEAD key/nonce uniqueness, wrap discipline, taint search of records, metastore rows, KMS requests and debug log lines)" % (cfg["runs"], cfg["ops"]))
+
+
+def check_C09(run):
+    q = run.quick
+    small = dict(variants=("lru", "slru", "lfu", "tinylfu"), drvargs=("-capacities", "1,2", "-ifail", "150"), strict=False)
+    fams = [("hist+evict+ifail", dict(over=dict(MaxT=5 if q else 6, MaxKids=5 if q else 6, MaxRecs=1 if q else 2, MaxRevokes=1, EmitEvery=10 if q else 40),
+                                      ik=("session", "shared") if q else ("session", "shared", "none"), sk=(True,) if q else (True, False), **small)),
+            ("nocache", dict(over=dict(MaxT=4, MaxKids=4 if q else 6, MaxRecs=1, MaxRevokes=1, EmitEvery=6 if q else 20), ik=("none",), sk=(False,),
+                             drvargs=("-ifail", "150"), strict=False)),
+            ("faults+ifail", dict(over=dict(MaxT=5, Ticks="{4}", MaxKids=5, MaxRecs=1, MaxRevokes=0, MaxFaults=2, MaxOpFaults=2, EmitEvery=12 if q else 40),
+                                  ik=("session",), sk=(True,), drvargs=("-ifail", "200"), strict=False)),
+            ("sesscache", dict(over=dict(MaxT=4, MaxKids=4, MaxRecs=1, MaxRevokes=1, EmitEvery=10 if q else 30), ik=("session",), sk=(True,), sess=(True,),
+                               drvargs=("-ifail", "100"), strict=False))]
+    if not q:
+        fams.append(("two-parts+evict", dict(over=dict(MaxT=4, MaxKids=5, MaxRecs=2, MaxRevokes=1, EmitEvery=50),
+                                             parts=("a", "b"), ik=("shared", "session"), sk=(True,), **small)))
+    if not q:
+        fams.append(("race-dup", dict(over=dict(MaxT=1, MaxKids=4, MaxRecs=2, MaxRevokes=0, EmitEvery=10), procs=("p1", "p2"), ik=("session",), sk=(True,), **small)))
+    return generic(run, fams)
+
+
+def check_C10(run):
+    q = run.quick
+    fams = [("hist+ifail", dict(over=dict(MaxT=4 if q else 6, MaxKids=5 if q else 6, MaxRecs=1 if q else 2, MaxRevokes=1, EmitEvery=10 if q else 40),
+                                ik=("session", "none") if q else ("session", "shared", "none"), sk=(True, False), drvargs=("-ifail", "250"), strict=False)),
+            ("faults+ifail", dict(over=dict(MaxT=5, Ticks="{4}", MaxKids=5, MaxRecs=1, MaxRevokes=0, MaxFaults=2, MaxOpFaults=2, EmitEvery=10 if q else 30),
+                                  ik=("session", "none"), sk=(True,), drvargs=("-ifail", "250"), strict=False)),
+            ("race-dup", dict(over=dict(MaxT=1, MaxKids=4, MaxRecs=1, MaxRevokes=0, EmitEvery=10 if q else 6), procs=("p1", "p2"), ik=("session",), sk=(True,),
+                              drvargs=("-ifail", "150"), strict=False))]
+    aws_kms_wipe(run)
+    return generic(run, fams)
+
+
+def aws_kms_wipe(run):
+    """C10, cloud KMS part: the data-key plaintext obtained from the regional KMS clients (both AWS plugins) is zero after
+    EncryptKey / DecryptKey - judged by TLC (KmsWipeTrace.tla) on every case KmsRegions.tla generates."""
+    import eng_kms
+    from vlib import validate_traces
+    n = 2 if run.quick else 3
+    run.spec_files("KmsRegions.tla", "KmsRegionsGen.tla", "KmsWipeTrace.tla")
+    run.write("KGEN.cfg", cfg_text("GCasesOnly", eng_kms.consts(n, "any"), invs=["TypeOK"]))
+    g = run.tlc("KmsRegionsGen.tla", "KGEN.cfg", timeout=900, out_name="kgen.out")
+    run.tlc_must_hold(g, "KmsRegionsGen case generation")
+    trace = os.path.join(run.work, "trace.ndjson")
+    res = run.drv(["-in", g.path, "-trace", trace, "-seed", str(run.seed), "-repeat", "1"], timeout=1800, binary=run.gobin("kmsdrv"))
+    os.remove(g.path)
+    run.absorb(res)
+    rej = validate_traces(run, "KmsWipeTrace.tla", {}, [], trace, "kms-wipe", max_reject=3)
+    for x in rej:
+        ev, rs = x["event"], x["reset"]
+        what = "GenerateDataKey plaintext not wiped after EncryptKey" if ev.get("e") == "wrap" else "KMS Decrypt plaintext not wiped after DecryptKey"
+        run.findings.append({"kind": "C10.CloudKMSDataKeyWiped %s plugin=%s" % (ev.get("e"), rs.get("wplug") if ev.get("e") == "wrap" else rs.get("uplug")),
+                             "detail": "%s: %s" % (what, json.dumps(ev)[:400]), "case": {"trace": x["trace"]}})
+    run.notes.append("aws kms plugins: %d wrap/unwrap runs checked for wiped data-key plaintext" % res["evaluations"])
+
+
 def check_C04(run):
     q = run.quick
     fams = [("expiry", dict(over=dict(MaxT=6 if q else 9, MaxKids=6, MaxRecs=1, MaxRevokes=0, EmitEvery=10 if q else 40),
